@@ -92,7 +92,9 @@ func itemKinds() []kindDef {
 		kindDef{"ref-string", func(d *Doc) *Schema { return addComp(d, "ItemStr", &Schema{Type: "string"}) }},
 		kindDef{"ref-int64", func(d *Doc) *Schema { return addComp(d, "ItemInt", &Schema{Type: "integer", Format: "int64"}) }},
 		kindDef{"ref-any", func(d *Doc) *Schema { return addComp(d, "ItemAny", &Schema{}) }},
-		kindDef{"ref-array", func(d *Doc) *Schema { return addComp(d, "ItemArr", &Schema{Type: "array", Items: &Schema{Type: "string"}}) }},
+		kindDef{"ref-array", func(d *Doc) *Schema {
+			return addComp(d, "ItemArr", &Schema{Type: "array", Items: &Schema{Type: "string"}})
+		}},
 		kindDef{"ref-map", func(d *Doc) *Schema {
 			return addComp(d, "ItemMap", &Schema{Type: "object", AdditionalProperties: &AddProps{Schema: &Schema{Type: "integer"}}})
 		}},
@@ -613,7 +615,12 @@ func NameRows() []Row {
 			opAt(d, "/x", "GET")
 		}},
 		{"opid-vs-derived", func(d *Doc) { opAt(d, "/x", "GET").OperationID = "PostX"; opAt(d, "/x", "POST") }},
-		{"schema-vs-generated-type", func(d *Doc) { addComp(d, "API", objAB()); addComp(d, "Client", objCD()); addComp(d, "Maybe", objAB()); opAt(d, "/x", "GET") }},
+		{"schema-vs-generated-type", func(d *Doc) {
+			addComp(d, "API", objAB())
+			addComp(d, "Client", objCD())
+			addComp(d, "Maybe", objAB())
+			opAt(d, "/x", "GET")
+		}},
 	}
 	for _, c := range coll {
 		d := NewDoc()
@@ -647,7 +654,10 @@ func OperationRows() []Row {
 	}
 	for _, m := range Methods {
 		m := m
-		add("method/"+strings.ToLower(m), false, func(d *Doc) { opAt(d, "/x", m); opAt(d, "/x/{id}", m).Parameters = []*Parameter{{Name: "id", In: "path", Required: true, Schema: &Schema{Type: "string"}}} })
+		add("method/"+strings.ToLower(m), false, func(d *Doc) {
+			opAt(d, "/x", m)
+			opAt(d, "/x/{id}", m).Parameters = []*Parameter{{Name: "id", In: "path", Required: true, Schema: &Schema{Type: "string"}}}
+		})
 	}
 	statusSets := [][]string{{"200"}, {"200", "404"}, {"201", "400", "500", "default"}, {"default"}, {"204"}, {"599", "100"}, {"200", "201", "202", "203"}}
 	for _, ss := range statusSets {
@@ -692,6 +702,20 @@ func OperationRows() []Row {
 	add("responses/component-same-twice", true, func(d *Doc) {
 		d.Components = &Components{Responses: map[string]*Response{"Err": {Description: Str("e")}}}
 		opAt(d, "/x", "GET").Responses = map[string]*Response{"404": {Ref: RefResponses + "Err"}, "500": {Ref: RefResponses + "Err"}}
+	})
+	add("responses/component-and-its-alias-in-one-operation", true, func(d *Doc) {
+		d.Components = &Components{Responses: map[string]*Response{"Err": {Description: Str("e")}, "ErrAlias": {Ref: RefResponses + "Err"}}}
+		opAt(d, "/x", "GET").Responses = map[string]*Response{"404": {Ref: RefResponses + "Err"}, "500": {Ref: RefResponses + "ErrAlias"}}
+	})
+	add("responses/alias-in-separate-operations", false, func(d *Doc) {
+		d.Components = &Components{Responses: map[string]*Response{"Err": {Description: Str("e")}, "ErrAlias": {Ref: RefResponses + "Err"}}}
+		opAt(d, "/x", "GET").Responses = map[string]*Response{"404": {Ref: RefResponses + "Err"}}
+		opAt(d, "/y", "GET").Responses = map[string]*Response{"500": {Ref: RefResponses + "ErrAlias"}}
+	})
+	add("responses/only-components-are-responses", false, func(d *Doc) {
+		d.Components = &Components{Responses: map[string]*Response{"NotFound": {Description: Str("nf")}, "Alias": {Ref: RefResponses + "NotFound"}}}
+		opAt(d, "/x", "GET").Responses = map[string]*Response{"200": {Description: Str("")}, "404": {Ref: RefResponses + "NotFound"}}
+		opAt(d, "/y", "GET").Responses = map[string]*Response{"404": {Ref: RefResponses + "Alias"}}
 	})
 	add("responses/component-default-and-numbered", true, func(d *Doc) {
 		d.Components = &Components{Responses: map[string]*Response{"Err": {Description: Str("e")}}}
@@ -809,7 +833,7 @@ func OperationRows() []Row {
 	secSchemes := map[string]*SecurityScheme{
 		"bearer": {Type: "http", Scheme: "bearer"}, "basic": {Type: "http", Scheme: "basic"},
 		"keyh": {Type: "apiKey", In: "header", Name: "X-Api-Key"}, "keyq": {Type: "apiKey", In: "query", Name: "api_key"},
-		"keyc": {Type: "apiKey", In: "cookie", Name: "sid"},
+		"keyc":  {Type: "apiKey", In: "cookie", Name: "sid"},
 		"oauth": {Type: "oauth2", Flows: &OAuthFlows{Implicit: &OAuthFlow{AuthorizationURL: "https://a.example/auth", Scopes: map[string]string{"read": "r", "write": "w"}}}},
 		"oidc":  {Type: "openIdConnect", OpenIDConnectURL: "https://a.example/.well-known"},
 	}
@@ -858,7 +882,11 @@ func OperationRows() []Row {
 	// servers
 	for _, b := range BaseForms() {
 		b := b
-		add("servers/"+b.Name, false, func(d *Doc) { d.Servers = b.Servers; opAt(d, "/x", "GET"); opAt(d, "/x/{id}", "GET").Parameters = []*Parameter{{Name: "id", In: "path", Required: true, Schema: &Schema{Type: "string"}}} })
+		add("servers/"+b.Name, false, func(d *Doc) {
+			d.Servers = b.Servers
+			opAt(d, "/x", "GET")
+			opAt(d, "/x/{id}", "GET").Parameters = []*Parameter{{Name: "id", In: "path", Required: true, Schema: &Schema{Type: "string"}}}
+		})
 	}
 	// paths
 	for _, p := range []string{"/", "/a/", "/a/{v}/", "/{v}", "/{v}/{w}/{x}", "/a/b/c/d/e/f", "/a.json", "/a_b", "/1", "/a//b", "/{v}.json", "/a/{v}-x", "/a/{v}{w}"} {
